@@ -217,7 +217,7 @@ def main(tier: str) -> int:
     out.notes["presentations_per_problem"] = {f"{N}": len(v) for N, v in byN.items()}
     core.pipeline(out, "c18", behaviours, "Presentation_Trace", lock_mode="superset", chunk=20, site_of=site_of, tags_of=tags_of)
     out.rule = ("TLC enumerates, per algorithm (cp_als, cp_apr mu/pdnr/pqnr, hosvd, tucker_als, gcp_opt+L-BFGS-B), every admissible "
-                "presentation differing from the base in one coordinate (holder, printing interval 0..3, scale 2, 1/4, 3, every mode "
+                "presentation differing from the base in one coordinate (holder, printing interval 0..3, scale 2, 1/4, 3, 1e-6, 1e6, every mode "
                 "relabelling; thorough: printing combined with another coordinate) for N = 2, 3, 4 (quick: a sample of the relabellings of four modes), given and random "
                 "starts; Transform laws (relabel / scale a Kruskal or Tucker model = relabel / scale its denotation, order "
                 "relabelling) checked on integer models; each presentation run on the real algorithm and compared with the base run")
